@@ -41,4 +41,13 @@ PROPS = {
         "faults": ["cut-eof@n", "cut-rst@n", "werr@n/short-write", "stall (peer stops reading)", "bit flips", "close-peer with handlers held", "frame mutations", "bursts > queue capacity", "frag", "clock advance (ReadTimeout, IdleTimeout, ping timers)"],
         "probes_expected": ["fault-cut-eof", "fault-cut-rst", "fault-werr", "fault-stall-s2c", "fault-flip", "fault-close-peer"],
     },
+    "C10": {
+        "level": "exploration",
+        "level_text": "Seeded exploration: one connection-scoped offence from a catalogue of 27 (frame-size, sequencing, SETTINGS-value, flow-control, stream-identifier and HPACK violations) is placed inside well-formed multiplexed traffic, with 0-3 requests before it, and the peer then keeps sending, goes silent, stops reading or disconnects; a second family sets IdleTimeout and lets requests race the idle timer on the fake clock. Oracle: every GOAWAY's last-stream-id >= every stream id ever handed to a handler; nothing opened after the offence is dispatched; the GOAWAY code is one RFC 7540 allows for the offence; no unrecovered or recovered panic; ServeConn has returned at quiescence an hour (fake) after the error with the peer still connected, and again after the peer left.",
+        "level_note": "Liveness is judged only at quiescence after the clock was advanced by an hour with every promised handler released. A worker process killed by an unrecovered panic on a goroutine of the server is re-run twice from (seed, run) in fresh processes and reported as process-panic/<function>. Known findings: GOAWAY from the read loop carries last-stream-id 0; GOAWAY from the stream loop carries the offending stream's id; queue wedges shared with C17.",
+        "design_ref": "DESIGN.md §3 C10, Appendix B",
+        "rule": "a run = seeded plan (0-3 requests before, one offence, trailing behaviour keep-sending/silent/stall/disconnect; or idle-timeout racing requests) under one seeded schedule, then +1 h, disconnect, +1 h. Non-trivial: a GOAWAY was observed and at least one stream had been opened or dispatched before it. Distinct: interleaving hash.",
+        "faults": ["connection-scoped protocol offences (27 kinds)", "trailing traffic bursts", "stall (peer stops reading)", "close-peer", "frag", "delay/reorder-dirs", "clock advance (idle timer, ping timer, drain timeout)", "handler gate order"],
+        "probes_expected": ["fault-stall-s2c", "fault-close-peer"],
+    },
 }
